@@ -748,10 +748,12 @@ impl Expression {
                 match ps.peek::<0>() {
                     Some(d) if ('0'..='7').contains(&d) => {
                         // parse as OCT
-                        let mut num = 0i64;
+                        let mut num = Some(0i64);
+                        let mut float = 0f64;
                         loop {
                             let d = ps.next().unwrap() as i64 - '0' as i64;
-                            num = num * 8 + d;
+                            num = num.and_then(|x| x.checked_mul(8)?.checked_add(d));
+                            float = float * 8. + d as f64;
                             let Some(peek) = ps.peek::<0>() else { break };
                             if !is_ident_char(peek) {
                                 break;
@@ -763,20 +765,25 @@ impl Expression {
                                 return None;
                             }
                         }
-                        return Some(Box::new(Expression::LitInt {
-                            value: num,
-                            location: pos..ps.position(),
+                        // beyond the range of an integer the literal is a float (as in JS)
+                        return Some(Box::new(match num {
+                            Some(value) => Expression::LitInt {
+                                value,
+                                location: pos..ps.position(),
+                            },
+                            None => Expression::LitFloat {
+                                value: float,
+                                location: pos..ps.position(),
+                            },
                         }));
                     }
                     Some('x') => {
                         // parse as HEX
                         ps.next(); // 'x'
-                        let mut num = 0i64;
+                        let mut num = Some(0i64);
+                        let mut float = 0f64;
                         let peek = ps.peek::<0>()?;
-                        if !('0'..='9').contains(&peek)
-                            && !('a'..='z').contains(&peek)
-                            && !('A'..='Z').contains(&peek)
-                        {
+                        if !peek.is_ascii_hexdigit() {
                             ps.add_warning_at_current_position(
                                 ParseErrorKind::UnexpectedExpressionCharacter,
                             );
@@ -803,24 +810,28 @@ impl Expression {
                                 'f' | 'F' => 15,
                                 _ => unreachable!(),
                             };
-                            num = num * 16 + d;
+                            num = num.and_then(|x| x.checked_mul(16)?.checked_add(d));
+                            float = float * 16. + d as f64;
                             let Some(peek) = ps.peek::<0>() else { break };
                             if !is_ident_char(peek) {
                                 break;
                             }
-                            if !('0'..='9').contains(&peek)
-                                && !('a'..='z').contains(&peek)
-                                && !('A'..='Z').contains(&peek)
-                            {
+                            if !peek.is_ascii_hexdigit() {
                                 ps.add_warning_at_current_position(
                                     ParseErrorKind::UnexpectedExpressionCharacter,
                                 );
                                 return None;
                             }
                         }
-                        return Some(Box::new(Expression::LitInt {
-                            value: num,
-                            location: pos..ps.position(),
+                        return Some(Box::new(match num {
+                            Some(value) => Expression::LitInt {
+                                value,
+                                location: pos..ps.position(),
+                            },
+                            None => Expression::LitFloat {
+                                value: float,
+                                location: pos..ps.position(),
+                            },
                         }));
                     }
                     Some('e') | Some('.') | Some('8') | Some('9') => {
